@@ -2309,3 +2309,27 @@ pub fn c13_request_ledger(nd: &mut Nondet) {
         }
     }
 }
+
+/// C13 (kernel): the configured bound on concurrently served inbound requests holds across peers.
+pub fn c13_inbound_bound(nd: &mut Nondet) {
+    let mut manager = TransportManagerBuilder::new().build();
+    hooks::register_scripted_tcp(&mut manager, Box::new(move |_call: TransportCall| true));
+    let limit = 1 + nd.choose("limit", 2) as usize;
+    let mut kernel = rr::new_kernel(&mut manager, Some(limit));
+    let peers = [nd.peer_id_fixed(1), nd.peer_id_fixed(2)];
+    for (i, p) in peers.iter().enumerate() {
+        check("c13i.connection-is-handled", rr::connection_established(&mut kernel, *p, ConnectionId::from(i)));
+    }
+    let steps = param("steps", 4);
+    for n in 0..steps {
+        let who = nd.choose("peer", 2) as usize;
+        let before = rr::inbound_in_progress(&kernel);
+        let io = ScriptedIo::new(nd, Vec::new());
+        let substream = Substream::new_verif(peers[who], SubstreamId::from(n as usize), Box::new(io), ProtocolCodec::UnsignedVarint(Some(1024)));
+        check("c13i.inbound-substream-is-handled", rr::inbound_substream(&mut kernel, peers[who], substream));
+        let after = rr::inbound_in_progress(&kernel);
+        if before < limit { cover("c13i.admitted"); check("c13i.request-below-the-bound-is-admitted", after == before + 1); }
+        else { cover("c13i.refused"); check("c13i.request-at-the-bound-is-refused", after == before); }
+        check("c13i.inbound-bound-respected", after <= limit);
+    }
+}
